@@ -363,18 +363,49 @@ fn helper_messages(ctx: &Ctx, o: &OwnedSpendBundleConditions) -> Vec<PkMsg> {
     v
 }
 
+/// a second network in the same process: seven other domain constants (a node, a test-suite or a
+/// wallet library can validate for more than one network; the reserved suffixes are those of the
+/// constants it is GIVEN, not of the first ones it ever saw)
+fn other_network(ctx: &Ctx) -> (chia_consensus::consensus_constants::ConsensusConstants, Vec<[u8; 32]>) {
+    let dom = |i: u8| -> [u8; 32] { vcore::sha256(&[b"verif-other-network", &[i]]) };
+    let mut c = ctx.consts.clone();
+    c.agg_sig_me_additional_data = chia_protocol::Bytes32::new(dom(0));
+    c.agg_sig_parent_additional_data = chia_protocol::Bytes32::new(dom(1));
+    c.agg_sig_puzzle_additional_data = chia_protocol::Bytes32::new(dom(2));
+    c.agg_sig_amount_additional_data = chia_protocol::Bytes32::new(dom(3));
+    c.agg_sig_puzzle_amount_additional_data = chia_protocol::Bytes32::new(dom(4));
+    c.agg_sig_parent_amount_additional_data = chia_protocol::Bytes32::new(dom(5));
+    c.agg_sig_parent_puzzle_additional_data = chia_protocol::Bytes32::new(dom(6));
+    (c, (0..7).map(dom).collect())
+}
+
 /// keys and AGG_SIG_UNSAFE suffixes that must be refused with and without signature checking
 fn case_refusals(ctx: &Ctx, rng: &mut Rng, rep: &mut Report) {
     let parent = rng.bytes32();
     let amount = *rng.pick(vcore::bundlegen::AMOUNT_POOL);
     let ph = vcore::bundlegen::puzzle(0).tree_hash();
+    // which network this validation is for, and whose constant the message ends in
+    let (other_consts, other_doms) = other_network(ctx);
+    let main_doms: Vec<[u8; 32]> = ctx.mconsts.all().iter().take(7).map(|d| <[u8; 32]>::try_from(&d[..]).unwrap()).collect();
+    let on_other = rng.bool();
+    let consts = if on_other { &other_consts } else { &ctx.consts };
+    let (own, foreign) = if on_other { (&other_doms, &main_doms) } else { (&main_doms, &other_doms) };
+    let mut must_accept = false;
     let (cond, what): (Sx, String) = if rng.bool() {
         let k = rng.usize(7);
         let mlen = rng.usize(3) * 16;
         let mut msg = rng.bytes(mlen);
-        msg.extend_from_slice(ctx.mconsts.all()[k]);
-        let pk = rng.pick(&ctx.keys.valid).clone();
-        (Sx::pair(Sx::atom(&[49]), Sx::list(&[Sx::atom(&pk), Sx::atom(&msg)])), format!("unsafe-suffix-{k}"))
+        if rng.chance(1, 4) {
+            // ends in a constant of the OTHER network: not reserved here
+            msg.extend_from_slice(&foreign[k]);
+            must_accept = true;
+            let pk = rng.pick(&ctx.keys.valid).clone();
+            (Sx::pair(Sx::atom(&[49]), Sx::list(&[Sx::atom(&pk), Sx::atom(&msg)])), format!("foreign-suffix-{k}"))
+        } else {
+            msg.extend_from_slice(&own[k]);
+            let pk = rng.pick(&ctx.keys.valid).clone();
+            (Sx::pair(Sx::atom(&[49]), Sx::list(&[Sx::atom(&pk), Sx::atom(&msg)])), format!("unsafe-suffix-{k}"))
+        }
     } else {
         let op = *rng.pick(&[43u8, 44, 45, 46, 47, 48, 49, 50]);
         let k = rng.usize(ctx.keys.invalid.len());
@@ -384,21 +415,38 @@ fn case_refusals(ctx: &Ctx, rng: &mut Rng, rep: &mut Report) {
         Sx::list(&[Sx::list(&[Sx::atom(&parent), Sx::atom(&ph), Sx::atom(&vcore::ints::minimal_be_u64(amount)), Sx::list(&[cond])])]),
         Sx::nil(),
     );
+    let class = what.split('-').take(2).collect::<Vec<_>>().join("-");
+    rep.cell(&format!("network:{class}:{}", if on_other { "other-network" } else { "main-network" }));
     for dont in [false, true] {
+        if must_accept && !dont {
+            continue; // no signature is built for this probe
+        }
         let mut a = Allocator::new();
         let node = out.to_node_plain(&mut a);
         let mut f = ConsensusFlags::empty();
         if dont {
             f |= ConsensusFlags::DONT_VALIDATE_SIGNATURE;
         }
-        let r = parse_spends::<EmptyVisitor>(&a, node, 1 << 62, 0, f, &Signature::default(), None, &ctx.consts);
+        let r = parse_spends::<EmptyVisitor>(&a, node, 1 << 62, 0, f, &Signature::default(), None, consts);
         rep.eval();
-        rep.count(&format!("refusal:{}", what.split('-').take(2).collect::<Vec<_>>().join("-")));
-        if r.is_ok() {
+        if must_accept {
+            rep.count("foreign-suffix-probes");
+        } else {
+            rep.count(&format!("refusal:{class}"));
+        }
+        if must_accept {
+            if let Err(e) = r {
+                rep.violation(
+                    "c05-foreign-suffix-refused",
+                    &format!("AGG_SIG_UNSAFE message ending in a constant of ANOTHER network refused: {e:?}"),
+                    json!({"output": out.show(), "validated_for": if on_other { "other network" } else { "main network" }}),
+                );
+            }
+        } else if r.is_ok() {
             rep.violation(
-                &format!("c05-must-refuse:{}:accepted", what.split('-').take(2).collect::<Vec<_>>().join("-")),
+                &format!("c05-must-refuse:{class}:accepted"),
                 &format!("{what} accepted (DONT_VALIDATE_SIGNATURE={dont})"),
-                json!({"output": out.show(), "dont_validate": dont}),
+                json!({"output": out.show(), "dont_validate": dont, "validated_for": if on_other { "other network" } else { "main network" }}),
             );
         }
     }
